@@ -145,6 +145,7 @@ def cases(tier):
 
 def explore(tier, seed):
     chunks = [("v2", tier, i) for i in range(len(cases(tier)))] + [("legacy", tier, i) for i in range(len(c04.legacy_cases()))]
+    chunks.append(("fetch", tier, 0))
     return pool.run_chunks(run_chunk, chunks)
 
 
@@ -181,6 +182,10 @@ def run_chunk(chunk):
     world.set_today(dt.date(2022, 12, 1))
     d = pool.fresh_dir("c13")
     os.chdir(d)
+    if kind == "fetch":
+        fetch_cases(st)
+        os.chdir("/")
+        return st
     if kind == "v2":
         pat, label, old, new = cases(tier)[idx]
         old_text, new_text = M.render(pat.tree, old), M.render(pat.tree, new)
@@ -220,12 +225,49 @@ def run_chunk(chunk):
     return st
 
 
-def dry_then_real(st, tree, seps, flags, case, label):
+def fetch_cases(st):
+    """With a remote and fetching on (the default), the fetch may bring tags that change the start version: the dry
+    run must preview what the real run then does (the fake git serves extra tags once `fetch` has been issued)."""
+    from .. import fakevcs
+
+    for scope in ("default", "global", "branch"):
+        for local_tags, remote_tags in ((["1.2.3"], ["1.2.3", "1.4.0"]), ([], ["2.0.0"]), (["1.2.3", "1.3.0"], ["1.2.3", "1.3.0"])):
+            for fetch_flag in ("--fetch", "--no-fetch", None):
+                cfg = ('[bumpver]\ncurrent_version = "1.2.3"\nversion_pattern = "MAJOR.MINOR.PATCH"\n'
+                       f'tag_scope = "{scope}"\ncommit = false\n\n[bumpver.file_patterns]\n"a.txt" = ["ver={{version}};"]\n')
+                tree = {"bumpver.toml": cfg.encode(), "a.txt": b"x\nver=1.2.3;\ny\n"}
+                seps = {"bumpver.toml": "\n", "a.txt": "\n"}
+                flags = ["--patch"] + ([fetch_flag] if fetch_flag else [])
+                case = {"fetch_case": True, "scope": scope, "local_tags": local_tags, "remote_tags": remote_tags, "flags": flags}
+
+                def vcs():
+                    os.mkdir(".git")
+                    return fakevcs.install(fakevcs.FakeVCS("git", tags_all=local_tags, tags_merged=local_tags, status=[], remote="upstream",
+                                                           tags_after_fetch=remote_tags))
+
+                dry_then_real(st, tree, seps, flags, case, f"fetch:{scope}", base_flags=(), vcs=vcs)
+
+
+def dry_then_real(st, tree, seps, flags, case, label, base_flags=("--no-fetch", "--ignore-vcs-tag"), vcs=None):
+    from .. import fakevcs
+
     world.clear_dir(".")
     world.write_tree(tree)
-    o_dry = world.cli("update", "--no-fetch", "--ignore-vcs-tag", "--dry", *flags)
+    if vcs:
+        vcs()
+    try:
+        o_dry = world.cli("update", *base_flags, "--dry", *flags)
+    finally:
+        fakevcs.uninstall()
     after_dry = world.read_tree(".")
-    o_real = world.cli("update", "--no-fetch", "--ignore-vcs-tag", *flags)
+    if vcs:
+        world.clear_dir(".")
+        world.write_tree(tree)
+        vcs()
+    try:
+        o_real = world.cli("update", *base_flags, *flags)
+    finally:
+        fakevcs.uninstall()
     after_real = world.read_tree(".")
     st.evaluations += 2
     st.transitions += 2
@@ -268,6 +310,9 @@ def replay(case, st):
     os.chdir(d)
     try:
         for tier in ("quick", "thorough"):
+            if case.get("fetch_case"):
+                fetch_cases(st)
+                return
             if "legacy" in case:
                 for i, lc in enumerate(c04.legacy_cases()):
                     if lc[0] == case["legacy"]:
